@@ -102,7 +102,7 @@ def has_dupes(keys):
     return len(set(keys)) != len(keys)
 
 
-def check_generic(ctx, alg, iso, cfg, op, keysets, case_id, timeout=20, extra=None):
+def check_generic(ctx, alg, iso, cfg, op, keysets, case_id, timeout=20, extra=None, total=False):
     """Execute the real compiled function of `op` on FreePoly indeterminates and compare with the reference.
     Returns (status, result_mv | None).  status in ok|violation|raised|timeout."""
     mvs = [generic_mv(alg, ks, p) for ks, p in zip(keysets, 'ab')]
@@ -112,6 +112,11 @@ def check_generic(ctx, alg, iso, cfg, op, keysets, case_id, timeout=20, extra=No
         return 'timeout', None
     if st == 'exc':
         ctx.note_raised(r, op)
+        if total:
+            # total=True: the operator is defined for every pair of multivectors of the algebra (products, sums, involutions);
+            # "equals the reference for all operands" cannot hold where it returns nothing
+            ctx.violation('operator raised on valid operands', list(case_id) + ['raised'], config=cfg, op=op, keys_in=[list(k) for k in keysets],
+                          error=f'{type(r).__name__}: {str(r)[:160]}', **(extra or {}))
         return 'raised', r
     refs = [iso.mv_to_ref(m) for m in mvs]
     try:
